@@ -718,6 +718,15 @@ fn run_known(_args: &Args) -> Report {
     let got = j("non-spec://good.example/dir/file", "\\\\evil.example/x");
     rep.known.push(("F-C01-4".into(), got == "non-spec://evil.example/x", format!("join(non-spec://good.example/dir/file, \\\\evil.example/x) = {}", got)));
     rep.known.push(("F-C08-5".into(), got == "non-spec://evil.example/x", format!("join(non-spec://good.example/dir/file, \\\\evil.example/x) = {}", got)));
+    // the absolute law on a record produced by quirks::set_host (F-C07-8 seen from C08: C08_absolute_statement2_refuted):
+    // reproduces when the record's own serialization does not resolve to itself
+    {
+        let mut u = Url::parse("a://:pw@h/p").unwrap();
+        let _ = url::quirks::set_host(&mut u, "");
+        let s = u.as_str().to_string();
+        let got = j("a://:pw@h/p", &s);
+        rep.known.push(("F-C07-8".into(), got != s, format!("a://:pw@h/p .host = \"\" gives {}; join(a://:pw@h/p, that) = {}", s, got)));
+    }
     // make_relative: (id, base, target, fixed?) - reproduces when make_relative answers Some(r) and join(base, r) != target
     let table: [(&str, &str, &str); 8] = [
         ("F-C08-2", "web+demo:/", "web+demo:'<C|"),
